@@ -14,11 +14,14 @@
    occurs as often as its reverse; [star_faces]: every sub-triangle is oriented like its face;
    [planar_star ps]: all sub-normals are parallel to and oriented like the face normal.
 
-   NOT in this development: the 3-D centroid identity, non-planar (twisted) 3-D faces, the
-   legacy convex fallback branch of the 2-D code, embedded 1-D/2-D grids. *)
+   Legacy (convex-cell) branch of the 2-D code (Model.C19_fb): [reoriented e e']: e' is the face e
+   traversed in the cell's true sense of rotation.
+
+   NOT in this development: the 3-D centroid identity, non-planar (twisted) 3-D faces,
+   embedded 1-D/2-D grids. *)
 From Coq Require Import List ZArith QArith Qabs Bool Arith Permutation.
 Import ListNotations.
-From PP Require Import Model.C19 Proofs.C19 Model.C19_3d Proofs.C19_3d.
+From PP Require Import Model.C19 Proofs.C19 Model.C19_3d Proofs.C19_3d Model.C19_fb Proofs.C19_fb.
 Open Scope Q_scope.
 
 (* The model's orientation check implies the hypotheses of the cell theorems, for every cell. *)
@@ -140,6 +143,80 @@ Theorem C19_1d_output :
                     then - tangent1 h else tangent1 h.
 Proof. exact output_1d. Qed.
 Print Assumptions C19_1d_output.
+
+(* ---------------------------------------------------------------------------------------- *)
+(* 2-D, legacy branch (orientation checks failed: "assume all cells are convex") *)
+
+(* Which path geometry2f takes and what it returns there. *)
+Theorem C19_2d_legacy_branches :
+  forall g,
+    match geometry2f g with
+    | (BOriented, r) => geometry2 g = GOk r
+    | (BLegacySameNormal, r) =>
+        oriented1 g = true /\ ~ plane_sum g == 0 /\ geometry2 g = GFallback /\
+        r = legacy g (qsign (plane_sum g))
+    | (BLegacyGeneralNormal, r) =>
+        (oriented1 g = false \/ plane_sum g == 0) /\ r = legacy g (general_normal (g_nodes g))
+    end.
+Proof. exact geometry2f_branches. Qed.
+Print Assumptions C19_2d_legacy_branches.
+
+(* For a cell that is star-shaped w.r.t. its temporary centre (in particular convex), whatever
+   the stored node order and signs of its faces: the legacy volume is the volume the oriented
+   formulas give on the correctly traversed loop es' — hence the shoelace area when es' is
+   closed — and the legacy cell centre is the oriented one.  All identities of the oriented
+   branch (Gauss, centroid) therefore hold for es' with these volumes and centres. *)
+Theorem C19_2d_legacy_star_volume :
+  forall t es es', Forall2 reoriented es es' ->
+    (forall e', In e' es' -> 0 <= subvol 1 t e') -> signs_ok es' -> closed es' ->
+    fb_volume t es == shoelace 1 es'.
+Proof. exact legacy_star_area. Qed.
+Print Assumptions C19_2d_legacy_star_volume.
+
+Theorem C19_2d_legacy_star_center :
+  forall t es es', Forall2 reoriented es es' ->
+    (forall e', In e' es' -> 0 <= subvol 1 t e') ->
+    fb_volume t es == cell_volume 1 t es' /\
+    px (fb_center t es) == px (cell_center 1 t es') /\ py (fb_center t es) == py (cell_center 1 t es').
+Proof.
+  exact (fun t es es' HF Hp => conj (proj1 (legacy_star t es es' HF Hp)) (legacy_star_center t es es' HF Hp)).
+Qed.
+Print Assumptions C19_2d_legacy_star_center.
+
+(* Legacy volumes are never negative; the flip decision of a cell entry makes sign * normal
+   point from the cell's temporary centre towards the face. *)
+Theorem C19_2d_legacy_volume_nonneg : forall t es, 0 <= fb_volume t es.
+Proof. exact fb_volume_nonneg. Qed.
+Print Assumptions C19_2d_legacy_volume_nonneg.
+
+Theorem C19_2d_legacy_flip_outward :
+  forall sigma t e,
+    let n := fnormal sigma e in
+    let n' := if flip_entry sigma t e then (- px n, - py n) else n in
+    0 <= f_sgn e * dot (psub (fcenter e) t) n'.
+Proof. exact flip_entry_outward. Qed.
+Print Assumptions C19_2d_legacy_flip_outward.
+
+(* Non-vacuity: the unit square of pp.CartGrid([1, 1]) with the node order of face 0 reversed
+   fails orientation check 1/3, the legacy branch still returns volume 1 and centre (1/2, 1/2);
+   the correctly traversed loop is closed and star-shaped w.r.t. that centre. *)
+Example C19_legacy_nonvacuous :
+  let g := {| g_nodes := [(0, 0); (1, 0); (0, 1); (1, 1)];
+              g_faces := [(2, 0); (1, 3); (1, 0); (3, 2)]%nat;
+              g_cf := [(0%nat, 0%nat, (-1)%Z); (1%nat, 0%nat, 1%Z); (2%nat, 0%nat, (-1)%Z); (3%nat, 0%nat, 1%Z)];
+              g_nc := 1%nat |} in
+  oriented1 g = false /\
+  fst (geometry2f g) = BLegacyGeneralNormal /\
+  all2 (closeS 0) (o_vol (snd (geometry2f g))) [1] = true /\
+  all2 (closepS 1 1) (o_cc (snd (geometry2f g))) [(1 # 2, 1 # 2)] = true /\
+  all2 (closepS 1 1) (o_fn (snd (geometry2f g))) [(1, 0); (1, 0); (0, 1); (0, 1)] = true /\
+  (let es' := [((0, 0), (1, 0), 1%Z); ((1, 0), (1, 1), 1%Z); ((1, 1), (0, 1), 1%Z); ((0, 1), (0, 0), 1%Z)] in
+   closed es' /\ forall e', In e' es' -> 0 <= subvol 1 (1 # 2, 1 # 2) e').
+Proof.
+  cbn zeta. repeat split; try (vm_compute; reflexivity).
+  - exact (Permutation_cons_append [(1, 0); (1, 1); (0, 1)] (0, 0)).
+  - intros e' [<-|[<-|[<-|[<-|[]]]]]; vm_compute; discriminate.
+Qed.
 
 (* ---------------------------------------------------------------------------------------- *)
 (* 3-D *)
